@@ -126,8 +126,9 @@ impl StringBuiltin {
     #[inline]
     #[must_use]
     pub fn find(haystack: &str, needle: &str) -> f64 {
+        // Positions are counted in characters, as `len` and `slice` count them
         #[allow(clippy::cast_precision_loss)]
-        super::find(haystack, needle).map_or(-1.0, |v| v as f64)
+        super::find(haystack, needle).map_or(-1.0, |v| haystack[..v].chars().count() as f64)
     }
 
     #[inline]
